@@ -12,6 +12,7 @@ def run(ctx):
     rnd = tc.random_programs(rng, kinds, 3000 if th else 500, [2, 3, 5, 8, 13, 40, 200 if th else 60], maxcalls=5)
     far = tc.far_programs(rng, th)
     far += tc.refusal_programs(rng)       # refused adds in the middle of a history must not shift later handles
+    far += tc.default_programs(ctx, rng, th, kinds=["PPTT"])   # Default-built cache nodes between the others
     programs = progs + rnd + far
     ctx.samples = tc.sample(progs, 2) + tc.sample(rnd, 1)
     ctx.distinct = tc.distinct(programs)
